@@ -366,7 +366,76 @@ func immutAug(res *Result, dump string, idx int, cs interface{}) {
 	bad("concurrent rendering and aggregation")
 }
 
-var immutOnly, cutOnly bool
+var immutOnly, cutOnly, auxOnly bool
+
+// auxAug: what source analysis must leave alone. (C15) A slice parameter whose length and capacity
+// are large enough to be classified as pointers and recur, next to a recurring pointer: with naming
+// on, source analysis does not change which arguments are named, their names or their classification.
+// (C16) An argument list the runtime truncated: the rendering keeps the "..." marker whether or not
+// typed renderings are present.
+func auxAug(res *Result, dir string, idx int, cs interface{}) {
+	src := "package main\n\n//go:noinline\nfunc callee(b []byte, p *int, q *int) {\n\tpanic(\"boom\")\n}\n\n//go:noinline\nfunc many(a, b, c, d, e, f, g, h, i, j, k int) {\n\tpanic(\"boom\")\n}\n"
+	_ = os.WriteFile(filepath.Join(dir, "main.go"), []byte(src), 0o644)
+	file := filepath.ToSlash(filepath.Join(dir, "main.go"))
+	dump := fmt.Sprintf("goroutine 1 [running]:\nmain.callee({0xc000100000, 0x100000, 0x100000}, 0xc000012340, 0xc000012340)\n\t%s:5 +0x1d\nmain.many(0x1, 0x2, 0x3, 0x4, 0x5, 0x6, 0x7, 0x8, 0x9, 0xa, ...)\n\t%s:10 +0x1d\n\ngoroutine 2 [running]:\nmain.callee({0xc000100000, 0x100000, 0x100000}, 0xc000012348, 0xc000012340)\n\t%s:5 +0x1d\n", file, file, file)
+	type lab struct {
+		Name  string
+		IsPtr bool
+		Value uint64
+	}
+	labels := func(s *stack.Snapshot) []lab {
+		var out []lab
+		var walk func(a *stack.Args)
+		walk = func(a *stack.Args) {
+			for i := range a.Values {
+				if a.Values[i].IsAggregate {
+					walk(&a.Values[i].Fields)
+				} else {
+					out = append(out, lab{a.Values[i].Name, a.Values[i].IsPtr, a.Values[i].Value})
+				}
+			}
+		}
+		for _, g := range s.Goroutines {
+			for i := range g.Stack.Calls {
+				walk(&g.Stack.Calls[i].Args)
+			}
+		}
+		return out
+	}
+	plain, _ := scanWith(dump, &stack.Opts{LocalGOROOT: runtime.GOROOT(), GuessPaths: true, NameArguments: true})
+	aug, pan := scanWith(dump, &stack.Opts{LocalGOROOT: runtime.GOROOT(), GuessPaths: true, AnalyzeSources: true, NameArguments: true})
+	if pan != "" || plain == nil || aug == nil || len(aug.Goroutines) != 2 {
+		return
+	}
+	if len(aug.Goroutines[0].Stack.Calls[0].Args.Processed) == 0 {
+		res.infra("aux case %d: the generated source was not used", idx)
+		return
+	}
+	lp, la := labels(plain), labels(aug)
+	if !reflect.DeepEqual(lp, la) {
+		res.violation(Finding{Property: "C15", Aspect: "augment-labelling", What: fmt.Sprintf("augment case %d: with source analysis on, the names / classification of the arguments differ from those without it", idx), Case: cs, Input: []byte(dump), Expected: lp, Observed: la})
+		res.violation(Finding{Property: "C19", Aspect: "values", What: fmt.Sprintf("augment case %d: source analysis changed the raw arguments (name / pointer classification)", idx), Case: cs, Input: []byte(dump), Expected: lp, Observed: la})
+	}
+	for _, l := range la {
+		if l.Name != "" && !l.IsPtr {
+			res.violation(Finding{Property: "C15", Aspect: "non-pointer-named", What: fmt.Sprintf("augment case %d: the value 0x%x carries the pseudo-name %s but is not classified as a pointer", idx, l.Value, l.Name), Case: cs, Input: []byte(dump)})
+			break
+		}
+	}
+	res.count("aux_labellings_checked", 1)
+	// the truncation marker
+	for _, s := range []*stack.Snapshot{plain, aug} {
+		c := &s.Goroutines[0].Stack.Calls[1]
+		if !c.Args.Elided {
+			res.violation(Finding{Property: "C01", Aspect: "elided", What: "the truncated argument list is not marked as elided", Input: []byte(dump)})
+			continue
+		}
+		if txt := c.Args.String(); !strings.HasSuffix(txt, "...") {
+			res.violation(Finding{Property: "C16", Aspect: "args-elided-marker", What: fmt.Sprintf("augment case %d: an argument list the runtime truncated is rendered as %q, without the marker (typed renderings present: %v)", idx, txt, len(c.Args.Processed) != 0), Case: cs, Input: []byte(dump)})
+		}
+	}
+	res.count("aux_elided_checked", 1)
+}
 
 // cutAug: C10 with path guessing and source analysis on. The stream is cut at every byte after
 // the first goroutine (EOF and reader failure); the first goroutine lies entirely before the cut
@@ -518,7 +587,11 @@ func checkAugCase(res *Result, ac *augCase, dir string, idx int, seed int64, rea
 			cutAug(res, dump3, idx, cs)
 		}
 	}
-	if immutOnly || cutOnly {
+	if !immutOnly && !cutOnly {
+		auxAug(res, dir, idx, cs)
+		genSource(dir, ps, recv, 0)
+	}
+	if immutOnly || cutOnly || auxOnly {
 		return
 	}
 	// mismatching sources: never a crash, a changed value or a changed frame
@@ -630,8 +703,9 @@ func init() {
 		programs := c.fs.Int("programs", 40, "how many cases are also compiled with the toolchain and crashed")
 		c.fs.BoolVar(&immutOnly, "immut", false, "only the C14 part: immutability of snapshots that hold typed renderings")
 		c.fs.BoolVar(&cutOnly, "cut", false, "only the C10 part: cuts of a dump whose sources are on disk")
+		c.fs.BoolVar(&auxOnly, "aux", false, "only what source analysis must leave alone (C15 labelling, C16 truncation marker)")
 		_ = c.fs.Parse(args)
-		if immutOnly || cutOnly {
+		if immutOnly || cutOnly || auxOnly {
 			*programs = 0
 		}
 		res := newResult("one case = a parameter list over the supported kinds (from MC_Augment) with seeded values incl. negative, extreme and pointer-looking ones, optionally on a pointer-receiver method: a synthetic traceback in the toolchain's word layout against generated sources (naming off and on), six kinds of mismatching sources, and for a seeded sample the real traceback of the compiled (-gcflags '-N -l') and crashed program; non-trivial = at least two parameters")
